@@ -573,9 +573,11 @@ fn check(c: &Case) -> Verdict {
                 let want = expected(&forest, fmt.compressed, 0);
                 if got != want {
                     let masks = if fmt.compressed {
-                        subsets(&[HASH, DROPALL, CSSKEEP, MANGLE])
+                        // HASH (`/*#` comments dropped) was repaired in /repo (de9947c):
+                        // no longer a candidate explanation
+                        subsets(&[DROPALL, CSSKEEP, MANGLE])
                     } else {
-                        subsets(&[HOIST, HASH])
+                        subsets(&[HOIST])
                     };
                     match masks
                         .iter()
